@@ -23,6 +23,9 @@ Proof.
   destruct (sem a s) as [s' r]. apply H.
 Qed.
 
+Lemma arun_stat {A} sp (k : P A) s : arun (Stat sp k) s = arun k s.
+Proof. reflexivity. Qed.
+
 Lemma arun_act {A} a (k : ares -> P A) s :
   arun (Act a k) s = let '(s', r) := sem a s in arun (k r) s'.
 Proof. reflexivity. Qed.
